@@ -86,6 +86,11 @@ type lifeListener struct {
 	done   chan struct{}
 	once   sync.Once
 	closed atomic.Bool
+	// late, when set, makes Close hand an established connection to an Accept that is parked at that very moment
+	// (a peer whose connection completes just as the application closes the endpoint): the library has adopted a
+	// socket while shutting down and must still close it (C10, after seeded change C10c-1).
+	late     func(harnessEnd net.Conn)
+	lateDone atomic.Bool
 }
 
 func (l *lifeListener) Accept() (net.Conn, error) {
@@ -99,7 +104,22 @@ func (l *lifeListener) Accept() (net.Conn, error) {
 
 func (l *lifeListener) Close() error {
 	l.closed.Store(true)
-	l.once.Do(func() { close(l.done) })
+	l.once.Do(func() {
+		if l.late != nil {
+			a, b := net.Pipe()
+			lc := l.net.track(a)
+			select {
+			case l.ch <- lc: // an Accept was parked: it returns this connection, not the closed error
+				l.lateDone.Store(true) // (like an ordinary delivery, the accept itself is a hidden step of the model)
+				go l.late(b)
+			default:
+				_ = a.Close()
+				_ = b.Close()
+				lc.closed.Store(true) // never handed to the library
+			}
+		}
+		close(l.done)
+	})
 	return nil
 }
 func (l *lifeListener) Addr() net.Addr { return lifeAddr{} }
